@@ -917,6 +917,16 @@ func (s *session) execOn(m *mtx, verified []byte) (string, bool) {
 		}
 		return "rej:" + class(xerr), false
 	}
+	if len(verified) > 0 {
+		// oracle (producer path): the account the pool verified the signature against must be the account charged
+		resolved := m.tx.Body.Account
+		if len(resolved) <= types.NameLength {
+			_, resolved = nameInfo(sdb.OpenNewStateDB(best.GetHeader().GetBlocksRootHash()), resolved)
+		}
+		if !bytes.Equal(resolved, verified) {
+			s.fail("executeTx executed a transaction whose pool-verified account is not the account its sender resolves to")
+		}
+	}
 	who := "????"
 	for i, a := range s.w.addrs {
 		st, _ := state.GetAccountState(a, bs.StateDB)
@@ -1374,6 +1384,115 @@ func (s *session) genNameMove() {
 	}
 }
 
+func (s *session) validTx(tip *mblk, extra map[string]uint64) *mtx {
+	from := s.rng.Intn(nAcct)
+	to := (from + 1 + s.rng.Intn(nAcct-1)) % nAcct
+	a := s.w.addrs[from]
+	b := &types.TxBody{Nonce: s.nonceAt(tip, a) + 1 + extra[string(a)], Account: a, Recipient: s.w.addrs[to], Amount: s.amount(),
+		Type: types.TxType_TRANSFER, ChainIdHash: s.cid}
+	kind := "valid-transfer"
+	if s.rng.Chance(1, 6) {
+		b.Type = types.TxType_CALL
+		kind = "call-no-code"
+	}
+	extra[string(a)]++
+	return s.mk(txSpec{body: b, sig: sigSpec{mode: "k", key: from}, hash: hashSpec{mode: "self"}, kind: kind})
+}
+
+// genFork: a side branch from 1..3 blocks below the best block, one block longer than the main branch, sharing
+// transactions with it where the nonces fit (the same tx on both branches); sometimes with a forged / mis-nonced
+// transaction somewhere on it (the reorganisation must then fail and change nothing).
+func (s *session) genFork() {
+	rng := s.rng
+	best := s.bestBlk()
+	fp := best
+	for i := 1 + rng.Intn(3); i > 0 && fp.parent != nil; i-- {
+		fp = fp.parent
+	}
+	if fp == best {
+		return
+	}
+	need := int(best.height-fp.height) + 1
+	failAt := -1
+	if rng.Chance(1, 4) {
+		failAt = rng.Intn(need)
+	}
+	use := rng.Chance(1, 2)
+	tip := fp
+	for i := 0; i < need; i++ {
+		var txs []*mtx
+		extra := map[string]uint64{}
+		for k := rng.Intn(4); k > 0; k-- {
+			if f := s.fitting(tip); len(f) > 0 && rng.Chance(1, 2) {
+				m := f[rng.Intn(len(f))]
+				if extra[string(m.tx.Body.Account)] == 0 {
+					extra[string(m.tx.Body.Account)]++
+					txs = append(txs, m)
+					continue
+				}
+			}
+			txs = append(txs, s.validTx(tip, extra))
+		}
+		shape := "fork"
+		if i == failAt {
+			bad := s.validTx(tip, extra)
+			b := bad.tx.Body
+			nb := &types.TxBody{Nonce: b.Nonce, Account: b.Account, Recipient: b.Recipient, Amount: b.Amount, Type: b.Type, ChainIdHash: b.ChainIdHash}
+			if rng.Chance(1, 2) {
+				wrong := (s.acctIdx(b.Account) + 1 + rng.Intn(nAcct)) % (nAcct + 1)
+				txs = append(txs, s.mk(txSpec{body: nb, sig: sigSpec{mode: "k", key: wrong}, hash: hashSpec{mode: "self"}, kind: "wrong-key"}))
+			} else {
+				nb.Nonce += 2
+				txs = append(txs, s.mk(txSpec{body: nb, sig: sigSpec{mode: "k", key: s.acctIdx(b.Account)}, hash: hashSpec{mode: "self"}, kind: "nonce-gap"}))
+			}
+			shape = "fork-bad"
+		}
+		if i == need-1 {
+			shape += "-top"
+		}
+		if use && rng.Chance(1, 3) && len(txs) > 0 {
+			s.opAdmit(txs[rng.Intn(len(txs))])
+		}
+		b := s.opBlock(tip, txs, use, shape)
+		if b.dead {
+			return
+		}
+		tip = b
+	}
+}
+
+// genPoolHit: a valid transaction is admitted, looked up by the block-level verifier, and then included in a block.
+func (s *session) genPoolHit() {
+	tip := s.bestBlk()
+	m := s.validTx(tip, map[string]uint64{})
+	s.opAdmit(m)
+	use := s.rng.Chance(2, 3)
+	hit, err := chain.VerifC04VerifyTx(s.n.cs, m.tx, use)
+	out := "ok"
+	if err != nil {
+		out = "fail"
+	} else if hit {
+		out = "hit"
+	}
+	u := "0"
+	if use {
+		u = "1"
+	}
+	s.op(fmt.Sprintf("bverify %d %s", m.tid, u), out, err == nil)
+	s.run.Count("bverify=" + out)
+	txs := []*mtx{m}
+	if s.rng.Chance(1, 3) {
+		// the same hash with another field split: the pool knows the hash, the body differs
+		b := m.tx.Body
+		if len(b.Amount) >= 2 {
+			c := &types.TxBody{Nonce: b.Nonce, Account: b.Account, Recipient: b.Recipient, Amount: b.Amount[:1],
+				Payload: append([]byte{}, b.Amount[1:]...), Type: b.Type, ChainIdHash: b.ChainIdHash}
+			txs = []*mtx{s.mk(txSpec{body: c, sig: sigSpec{mode: "t", tid: m.tid}, hash: hashSpec{mode: "t", tid: m.tid}, kind: "field-boundary-shift"})}
+		}
+	}
+	s.opBlock(tip, txs, use, "pool-hit")
+}
+
 func (s *session) runSession(nops int) {
 	s.n = s.w.newNode()
 	defer s.n.close()
@@ -1389,18 +1508,23 @@ func (s *session) runSession(nops int) {
 	for _, a := range s.w.addrs[:nAcct] {
 		addrs = append(addrs, hx(a))
 	}
-	s.op(fmt.Sprintf("new %s %s 0 %s %s", hx(s.cid), hx(accept), genesisBalance.String(), strings.Join(addrs, " ")), "ok", false)
+	// types.MaxAER: on a net that is not the main net NewChainService sets it to the genesis total
+	s.op(fmt.Sprintf("new %s %s 0 %s %s %s", hx(s.cid), hx(accept), types.MaxAER.String(), genesisBalance.String(), strings.Join(addrs, " ")), "ok", false)
 	s.opState()
 	for i := 0; i < nops; i++ {
 		k := s.rng.Intn(100)
 		switch {
-		case k < 40:
+		case k < 30:
 			s.genBlock()
-		case k < 46:
+		case k < 36:
 			s.genAfterFailing()
-		case k < 52:
+		case k < 41:
 			s.genNameMove()
-		case k < 64:
+		case k < 51:
+			s.genFork()
+		case k < 56:
+			s.genPoolHit()
+		case k < 66:
 			s.opAdmit(s.genTx(s.bestBlk()))
 		default:
 			var m *mtx
@@ -1434,9 +1558,9 @@ func main() {
 	defer run.Finish()
 	w := newWorld(filepath.Join(run.Out, "nodes"))
 	s := &session{run: run, rng: run.Rng, w: w, p: w.newProducer()}
-	nsess := run.Pick(30, 300)
+	nsess := run.Pick(100, 1500)
 	for i := 0; i < nsess; i++ {
-		s.runSession(run.Pick(28, 40))
+		s.runSession(run.Pick(24, 40))
 	}
 	os.RemoveAll(w.root)
 }
